@@ -25,6 +25,15 @@ def generate(name):
             s.add(z3.Implies(p, z3.Not(goal)))
             text = s.to_smt2()
             out['groups'].append(dict(prelude=text[:text.rindex('(check-sat)')], checks=[(oname, 'lemma', label, 'pyvc_goal_0')]))
+            # vacuity guard: the hypotheses of the lemma must not be contradictory
+            s2 = z3.Solver()
+            s2.add(hyps)
+            p2 = z3.Bool('pyvc_goal_0')
+            s2.add(z3.Implies(p2, z3.BoolVal(True)))
+            t2 = s2.to_smt2()
+            vname = oname + ' [hypotheses consistent]'
+            out['obligations'].append((vname, 'must-not-hold', 'g', label))
+            out['groups'].append(dict(prelude=t2[:t2.rindex('(check-sat)')], checks=[(vname, 'must-not-hold', label, 'pyvc_goal_0')]))
     except Exception as e:
         import traceback
         out['error'] = 'CRASH: %s\n%s' % (e, traceback.format_exc())
@@ -82,3 +91,129 @@ def visible_frame():
     v2, e2 = visible(S2, H2, comp2)
     same_cells = [S1[en] == S2[en], H1[en] == H2[en], S1[real] == S2[real], H1[real] == H2[real], en != real]
     return [('explicit value survives writes to other slots', same_cells + [z3.Not(e1)], z3.And(z3.Not(e2), v2 == v1))]
+
+
+# ---------------------------------------------------------------- C07: the bit-slice algebra
+# Python's & | ~ << >> on unbounded ints, for mask-shaped operands (assumed facts A1-A3, DESIGN.md 2.5,
+# cross-checked against CPython), with P = pow2 and M = (P(w)-1)*P(s):
+#   A1  x & M        == ((x div P(s)) mod P(w)) * P(s)
+#   A2  x & (-M-1)   == x - (x & M)                         (~M == -M-1)
+#   A3  a | b        == a + b      when a & M == a and b & M == 0
+#   x << s == x*P(s);  x >> s == x div P(s)   (floor)
+# The lemmas below are pure integer arithmetic; div/mod are introduced by their defining witnesses and
+# the only non-linear help the solver gets are quotient-uniqueness hints.
+_P = z3.Function('P', z3.IntSort(), z3.IntSort())
+_band = z3.Function('band', z3.IntSort(), z3.IntSort(), z3.IntSort())
+_bor = z3.Function('bor', z3.IntSort(), z3.IntSort(), z3.IntSort())
+
+
+def _dm(x, d, tag):
+    q, r = z3.Int('q_' + tag), z3.Int('r_' + tag)
+    return q, r, [x == q * d + r, 0 <= r, r < d]
+
+
+def _hint(dd, d):
+    return [z3.Implies(dd >= 1, dd * d >= d), z3.Implies(dd <= -1, dd * d <= -d)]
+
+
+def _slice(x, wd, sh, tag):
+    q1, r1, h1 = _dm(x, _P(sh), tag + 'a')
+    q2, r2, h2 = _dm(q1, _P(wd), tag + 'b')
+    return r2, h1 + h2, (q1, q2, r1)
+
+
+def _A1(x, w, s, tag):
+    """instance of A1 for x: returns (facts, slice value)"""
+    sl, h, qs = _slice(x, w, s, tag)
+    M = (_P(w) - 1) * _P(s)
+    return h + [_band(x, M) == sl * _P(s)], sl, qs
+
+
+@lemma('C07.unpack_slice')
+def c07_unpack():
+    """(I & mask) >> shift is exactly the field's own bit slice (I div 2^shift) mod 2^w."""
+    I_, w, s = z3.Ints('I w s')
+    base = [w >= 1, s >= 0, _P(w) >= 2, _P(s) >= 1]
+    a1, own, (q1, q2, r1) = _A1(I_, w, s, 'u')
+    M = (_P(w) - 1) * _P(s)
+    qq, rr, hq = _dm(_band(I_, M), _P(s), 'sh')        # (I & M) >> s
+    return [('(I & M) >> s == slice', base + a1 + hq + _hint(qq - own, _P(s)), qq == own)]
+
+
+@lemma('C07.pack_merge')
+def c07_pack():
+    """I' = ((v << s) & M) | (I & ~M) sets the field's own slice to v mod 2^w for ANY integer v
+    (negative, >= 2^w) and leaves every disjoint slice - lower or higher neighbour - untouched."""
+    I_, v, w, s, wj, sj = z3.Ints('I v w s wj sj')
+    base = [w >= 1, s >= 0, wj >= 1, sj >= 0, _P(w) >= 2, _P(s) >= 1, _P(wj) >= 2, _P(sj) >= 1]
+    M = (_P(w) - 1) * _P(s)
+    out = []
+    # -- step 1: the merged value is I + (v mod 2^w - own(I)) * 2^s
+    a1_I, own_old, (q1o, q2o, r1o) = _A1(I_, w, s, 'o')
+    qv, rv, hv = _dm(v, _P(w), 'v')
+    vs = v * _P(s)
+    a1_vs, sl_vs, (q1v, q2v, r1v) = _A1(vs, w, s, 'vs')
+    a = _band(vs, M)
+    b = _band(I_, -M - 1)
+    A2 = [b == I_ - _band(I_, M)]
+    a1_a, sl_a, (q1a, q2a, r1a) = _A1(a, w, s, 'a')
+    a1_b, sl_b, (q1b, q2b, r1b) = _A1(b, w, s, 'b')
+    A3 = [z3.Implies(z3.And(_band(a, M) == a, _band(b, M) == 0), _bor(a, b) == a + b)]
+    H1 = base + a1_I + hv + a1_vs + _hint(q1v - v, _P(s)) + _hint(q2v - qv, _P(w))
+    out.append(('a: (v<<s) & M == (v mod 2^w) * 2^s', H1, a == rv * _P(s)))
+    H2 = base + hv + a1_a + [a == rv * _P(s)] + _hint(q1a - rv, _P(s)) + _hint(q2a, _P(w))
+    out.append(('a & M == a', H2, _band(a, M) == a))
+    H3 = base + a1_I + A2 + a1_b + [b == I_ - own_old * _P(s)] + _hint(q1b - q2o * _P(w), _P(s)) + _hint(q2b - q2o, _P(w))
+    out.append(('b == I - own*2^s', base + a1_I + A2, b == I_ - own_old * _P(s)))
+    out.append(('b & M == 0', H3, _band(b, M) == 0))
+    I2 = I_ + (rv - own_old) * _P(s)
+    out.append(('merged value', base + a1_I + hv + A2 + A3 + [a == rv * _P(s), _band(a, M) == a, _band(b, M) == 0],
+                _bor(a, b) == I2))
+    # -- step 2: own slice of I2 is v mod 2^w
+    own_new, h_new, (q1n, q2n, r1n) = _slice(I2, w, s, 'n')
+    _, h_old, _ = _slice(I_, w, s, 'o')
+    H = base + h_old + hv + h_new + _hint(q1n - (q1o + rv - own_old), _P(s)) + _hint(q2n - q2o, _P(w))
+    out.append(('own slice == v mod 2^w', H, own_new == rv))
+    # -- step 3: a lower neighbour (sj + wj <= s) keeps its slice; 2^s = k * 2^wj * 2^sj (product law of pow2)
+    lo_old, hlo, (a1, a2, _) = _slice(I_, wj, sj, 'lo')
+    lo_new, hln, (b1, b2, _) = _slice(I2, wj, sj, 'ln')
+    k = z3.Int('k')
+    Hl = base + h_old + hv + hlo + hln + [sj + wj <= s, _P(s) == k * _P(wj) * _P(sj), k >= 1]
+    Hl += _hint(b1 - (a1 + (rv - own_old) * k * _P(wj)), _P(sj)) + _hint(b2 - (a2 + (rv - own_old) * k), _P(wj))
+    out.append(('lower neighbour untouched', Hl, lo_new == lo_old))
+    # -- step 4: a higher neighbour (s + w <= sj) keeps its slice; 2^sj = k2 * 2^w * 2^s
+    hi_old, hho, (c1, c2, _) = _slice(I_, wj, sj, 'ho')
+    hi_new, hhn, (d1, d2, _) = _slice(I2, wj, sj, 'hn')
+    k2, Tt, e, f = z3.Ints('k2 T e f')
+    lowI = own_old * _P(s) + r1o
+    lowI2 = rv * _P(s) + r1o
+    Hf = base + h_old + hv + [Tt == _P(w) * _P(s)]
+    out.append(('hi: I == q*T + low', Hf, z3.And(I_ == q2o * Tt + lowI, I2 == q2o * Tt + lowI2)))
+    out.append(('hi: low < T', Hf + [(_P(w) - 1 - own_old) * _P(s) >= 0, (_P(w) - 1 - rv) * _P(s) >= 0, rv * _P(s) >= 0,
+                                      own_old * _P(s) >= 0],
+                z3.And(0 <= lowI, lowI < Tt, 0 <= lowI2, lowI2 < Tt)))
+    lw = z3.Int('lw')
+    Hg = [Tt >= 1, k2 >= 1, 0 <= f, f < k2, _P(sj) == k2 * Tt, 0 <= lw, lw < Tt, (k2 - 1 - f) * Tt >= 0, f * Tt >= 0]
+    out.append(('hi: f*T + low < 2^sj', Hg, z3.And(f * Tt + lw < _P(sj), f * Tt + lw >= 0)))
+    Hh = base + h_old + hv + hho + hhn + [s + w <= sj, Tt == _P(w) * _P(s), _P(sj) == k2 * Tt, k2 >= 1,
+                                          q2o == e * k2 + f, 0 <= f, f < k2,
+                                          I_ == q2o * Tt + lowI, I2 == q2o * Tt + lowI2,
+                                          0 <= lowI, lowI < Tt, 0 <= lowI2, lowI2 < Tt,
+                                          f * Tt + lowI < _P(sj), f * Tt + lowI2 < _P(sj), f * Tt >= 0]
+    out.append(('hi: I == e*2^sj + rest', Hh, z3.And(I_ == e * _P(sj) + (f * Tt + lowI), I2 == e * _P(sj) + (f * Tt + lowI2))))
+    Hh2 = Hh + [I_ == e * _P(sj) + (f * Tt + lowI), I2 == e * _P(sj) + (f * Tt + lowI2)]
+    Hh2 += _hint(c1 - e, _P(sj)) + _hint(d1 - e, _P(sj)) + _hint(d2 - c2, _P(wj))
+    out.append(('higher neighbour untouched', Hh2, hi_new == hi_old))
+    return out
+
+
+@lemma('C04.truncation')
+def c04_truncation():
+    """Cutting a valid input anywhere inside a non-empty fixed-width field leaves a slice that is
+    shorter than the declared width, so the strictness postcondition (offset + n <= len(raw)) of
+    the leaf contracts excludes a normal exit: for every cut point t with o <= t < o + n."""
+    n, o, t, L = z3.Ints('n o t L')
+    raw = z3.Const('raw', T.Bytes)
+    cut = T.bslice(raw, 0, t)
+    hyps = T.bytes_axioms() + [n >= 1, o >= 0, o <= t, t < o + n, t <= T.blen(raw)]
+    return [('a cut inside the field makes the slice short', hyps, z3.Not(o + n <= T.blen(cut)))]
